@@ -114,8 +114,10 @@ pub fn kts() -> Vec<KT> {
     let mut v = vec![KT::K256];
     #[cfg(feature = "libsecp")]
     v.push(KT::Libsecp);
-    v.push(KT::Ed);
-    v.push(KT::Comb);
+    if cfg!(feature = "ed") {
+        v.push(KT::Ed);
+        v.push(KT::Comb);
+    }
     v.push(KT::Toy);
     v
 }
@@ -133,7 +135,7 @@ macro_rules! dispatch {
             #[cfg(not(feature = "libsecp"))]
             KT::Libsecp => panic!("libsecp256k1 key type not in this build"),
             KT::Ed => $f::<<crate::keys::EdK as KeyKind>::K>($arg),
-            KT::Comb => $f::<enr::CombinedKey>($arg),
+            KT::Comb => $f::<<crate::keys::CombK as KeyKind>::K>($arg),
             KT::Toy => $f::<ToyKey>($arg),
         }
     };
